@@ -16,7 +16,7 @@ func init() {
 		Explanation: "Decided (structural necessary conditions, dependency.Provider, all paths): R1 every push on the resolution stack is popped - by exactly the pushed slot: stack[:len-1] or stack[:n] with n read before the push - on every path to every return of Get (a failed or optional resolution leaves no name behind); R2 an instance produced by a factory is returned with a nil error only after it was stored in the instance table under the requested name; R3 tables are consulted in the order instances, factories, default factories, each only on the miss edge of the previous; R4 Get freezes the provider (Block) before it reads any table, and every definition method tests the frozen flag before any table write; R5 every store into the instance table of a value taken from a default table is confined to the miss edges of both explicit tables for that name; R6 every definition writes its table only on the miss edge of a lookup of the same name in that table (plus the explicit-table lookups that make explicit win); R7 in InjectTo the optional marker is recomputed for every field (not loop-carried), a failed optional field continues, a failed required field returns the error, and the extra injectors run after the field loop with their error returned; R8 the cycle scan visits the whole resolution stack. " +
 			"Added in round 2: R7 applies the per-field-flag clause to every implementer of app.Injector (datascope.Injector, MapInjector, ...: no branch in the field loop tests a boolean carried over from earlier fields) and requires that no branch taken before Get in Provider.InjectTo depends on provider state (no negative cache); R9 outside package dependency the library defines services only through SetDefault/AddDefaultFactory, never Set/AddFactory (a built-in in an explicit slot cannot be overridden by the application). " +
 			"Added in round 5: R10 every write to provider state made by Get and the functions it calls (Block and the resolution stack apart) is followed only by successful returns — a failed resolution leaves no negative cache or half-registered instance behind; R4 also counts a table read made by a private helper (defined(name)) as a read at its call site: none before Block. " +
-			"Added in round 7: R7's 'no branch before Get depends on provider state' follows the condition into same-package helpers (isDefined(name) in front of Get misses default instances, which only Get's Block folds in). " +
+			"Added in round 7: R7's 'no branch before Get depends on provider state' follows the condition into same-package helpers (isDefined(name) in front of Get misses default instances, which only Get's Block folds in); such a branch is accepted when a Block() call dominates it and its condition reads the instance, factory and default-factory tables and no other provider state (Get's own question asked early, not a memory of earlier requests). " +
 			"NOT decided: behaviour of arbitrary user factory graphs (factories are user code), reflection-level type compatibility of injected values.",
 	})
 }
@@ -1342,14 +1342,63 @@ func ruleInjectorSiblings(c *Ctx, inject, get *ssa.Function) {
 				return
 			}
 		}
+		seenF := map[string]bool{}
+		bad0 := ""
 		for _, o := range append(Origins(iff.Cond, FlowOpts{}), Origins(iff.Cond, FlowOpts{Interproc: 2})...) {
 			if o.Kind == "field" && strings.HasPrefix(o.Name, "dependency.Provider.") {
 				if _, isStr := o.Val.Type().Underlying().(*types.Basic); isStr && o.Val.Type().Underlying().(*types.Basic).Kind() == types.String {
 					continue
 				}
-				bad, pos = "a branch taken before Get depends on "+o.Name, iff.Pos()
+				seenF[strings.TrimPrefix(o.Name, "dependency.Provider.")] = true
+				bad0 = "a branch taken before Get depends on " + o.Name
 			}
 		}
+		if bad0 == "" {
+			return
+		}
+		// a predicate helper decides by control flow too: count every provider field it reads
+		if hc, ok := stripNot(resolve(iff.Cond)).(*ssa.Call); ok {
+			if h := hc.Call.StaticCallee(); h != nil && h.Pkg == inject.Pkg && h.Blocks != nil {
+				eachInstr(h, func(_ *ssa.BasicBlock, _ int, in ssa.Instruction) {
+					if u, ok := in.(*ssa.UnOp); ok && u.Op == token.MUL {
+						if fa, ok := u.X.(*ssa.FieldAddr); ok && strings.HasPrefix(fieldName(fa), "dependency.Provider.") {
+							if _, isMap := u.Type().Underlying().(*types.Map); isMap {
+								seenF[strings.TrimPrefix(fieldName(fa), "dependency.Provider.")] = true
+							}
+						}
+					}
+				})
+			}
+		}
+		// not a memory of earlier requests but Get's own question asked early: the provider was frozen
+		// first (Block folds the default instances in) and the condition looks at every table Get looks at
+		if ro := discoverProviderRoles(c); ro != nil {
+			need := map[string]bool{ro.inst: true, ro.fact: true, ro.defFact: true}
+			allowed := map[string]bool{ro.inst: true, ro.fact: true, ro.defFact: true, ro.defInst: true}
+			okT := true
+			for f := range seenF {
+				if !allowed[f] {
+					okT = false
+				}
+			}
+			for f := range need {
+				if !seenF[f] {
+					okT = false
+				}
+			}
+			frozen := false
+			if blk := c.P.Func(depPkg, "Provider", "Block"); blk != nil {
+				for _, bc := range CallsTo(inject, qualName(blk)) {
+					if bc.Kind == "call" && dominates(bc.Instr, iff) {
+						frozen = true
+					}
+				}
+			}
+			if okT && frozen {
+				return
+			}
+		}
+		bad, pos = bad0, iff.Pos()
 	})
 	c.Check(bad == "", "R7", "every tagged field is resolved through Get", orPos(pos, inject.Pos()), "no branch before Get depends on provider state",
 		bad+" — a remembered earlier failure decides the injection, so a failed or optional-and-missing resolution changes the outcome of later requests")
